@@ -294,6 +294,91 @@ fn tokens(src: &str, kinds: &[Kind]) -> Vec<Tok> {
     out
 }
 
+/// Parse a use tree starting at token `i`; returns flat (path, alias) pairs and the index after it.
+fn use_tree(toks: &[Tok], mut i: usize, prefix: Vec<String>, out: &mut Vec<(Vec<String>, Option<String>)>) -> Option<usize> {
+    let mut path = prefix;
+    loop {
+        let t = toks.get(i)?;
+        if t.text == "{" {
+            i += 1;
+            loop {
+                if toks.get(i)?.text == "}" {
+                    return Some(i + 1);
+                }
+                i = use_tree(toks, i, path.clone(), out)?;
+                if toks.get(i)?.text == "," {
+                    i += 1;
+                }
+            }
+        }
+        if !t.text.bytes().next().map(is_ident).unwrap_or(false) && t.text != "*" {
+            return None;
+        }
+        path.push(t.text.clone());
+        i += 1;
+        if toks.get(i)?.text == "::" {
+            i += 1;
+            continue;
+        }
+        let mut alias = None;
+        if toks.get(i)?.text == "as" {
+            alias = Some(toks.get(i + 1)?.text.clone());
+            i += 2;
+        }
+        out.push((path, alias));
+        return Some(i);
+    }
+}
+
+/// `use std::{a::B, c::{D, E}};` -> `use std::a::B; use std::c::D; use std::c::E;` (same for `core`),
+/// so that the path-by-path re-binding below sees every item. Line structure is kept.
+fn flatten_std_uses(src: &str) -> String {
+    let kinds = classify(src);
+    let toks = tokens(src, &kinds);
+    let mut edits: Vec<(usize, usize, String)> = vec![];
+    let mut i = 0;
+    while i + 3 < toks.len() {
+        let root = toks[i + 1].text.as_str();
+        if toks[i].text == "use" && (root == "std" || root == "core") && toks[i + 2].text == "::" && toks[i + 3].text == "{" {
+            let mut flat = vec![];
+            if let Some(end) = use_tree(&toks, i + 1, vec![], &mut flat) {
+                if toks.get(end).map(|t| t.text == ";").unwrap_or(false) {
+                    let mut text = String::new();
+                    for (k, (p, alias)) in flat.iter().enumerate() {
+                        let p: Vec<String> = if p.last().map(|s| s == "self").unwrap_or(false) { p[..p.len() - 1].to_vec() } else { p.clone() };
+                        if k > 0 {
+                            text.push_str(" use ");
+                        }
+                        text.push_str(&p.join("::"));
+                        if let Some(a) = alias {
+                            text.push_str(" as ");
+                            text.push_str(a);
+                        }
+                        if k + 1 < flat.len() {
+                            text.push(';');
+                        }
+                    }
+                    let newlines = src[toks[i + 1].start..toks[end].start].matches('\n').count();
+                    text.push_str(&"\n".repeat(newlines));
+                    edits.push((toks[i + 1].start, toks[end].start, text));
+                    i = end;
+                    continue;
+                }
+            }
+        }
+        i += 1;
+    }
+    let mut out = String::with_capacity(src.len());
+    let mut pos = 0;
+    for (s, e, r) in edits {
+        out.push_str(&src[pos..s]);
+        out.push_str(&r);
+        pos = e;
+    }
+    out.push_str(&src[pos..]);
+    out
+}
+
 struct Rewritten {
     text: String,
     sync_rewrites: usize,
@@ -481,6 +566,7 @@ fn main() {
     println!("cargo:rerun-if-changed={}", src_path);
     let src = fs::read_to_string(&src_path)
         .unwrap_or_else(|e| panic!("binding lost: cannot read lock source {}: {}", src_path, e));
+    let src = flatten_std_uses(&src);
     let out_dir = PathBuf::from(env::var("OUT_DIR").unwrap());
 
     let mut n_sync = 0;
